@@ -14,12 +14,15 @@ import IbicusModel.Props.C06
 import IbicusModel.Props.C16
 import IbicusModel.Lemmas.C06Stats
 import IbicusModel.Lemmas.C06Rank
+import IbicusModel.Lemmas.C06Years
+import IbicusModel.Lemmas.C06Except
+import IbicusModel.Lemmas.C06Isimip
 import IbicusModel.Lemmas.IsimipModel
 import IbicusModel.Lemmas.GenDebiasers
 
 namespace Props.C06
 open Model.Skeleton Model.Windows Model.Stats Model.Family Model.Debiasers
-open Lemmas.Pointwise Lemmas.Perm Lemmas.C06 Lemmas.Stats
+open Lemmas.Pointwise Lemmas.Perm Lemmas.C06 Lemmas.Stats Lemmas.Years
 
 /-! ## 0. The shape shared by all instantiations -/
 
@@ -453,5 +456,307 @@ theorem sdm_absolute_window_free (Fam : LocScaleFam) (hfit : LocScalePerm Fam) (
     sdmAbsolute Fam (take obs pO) (take hist pH) (take fut pF) = take (sdmAbsolute Fam obs hist fut) pF := by
   rw [sdmAbsolute_eq_PW Fam _ _ _ (take_perm_nodup fut pF hpF hnd), sdmAbsolute_eq_PW Fam _ _ _ hnd]
   exact equivariance_window _ (sdm_absolute_pointwise_orderfree Fam hfit) obs hist fut pO pH pF hpO hpH hpF
+
+/-! ## 7. CDFt / QDM with the seasonal window AND the running window over the years of the future period -/
+
+theorem cdftYearFn_pointwise (d : DeltaShift) (em : EcdfMethod) (im : IecdfMethod) :
+    ∃ G : List Rat → List Rat → List Rat → Rat → Rat,
+      (∀ o h, PointwiseY (cdftYearFn d em im o h) (G o h)) ∧
+      (∀ o o' h h' x x' : List Rat, o.Perm o' → h.Perm h' → x.Perm x' → G o h x = G o' h' x') := by
+  obtain ⟨G, hpw, hG⟩ := cdft_pointwise_orderfree d em im
+  exact ⟨G, fun o h x _ => by simp [cdftYearFn, hpw], hG⟩
+
+theorem qdmYearFn_pointwise {P} (Fam : Family P) (hfit : FitPerm Fam) (tp : TrendPres) (em : EcdfMethod) (t : Rat)
+    (c : Option Rat) :
+    ∃ G : List Rat → List Rat → List Rat → Rat → Rat,
+      (∀ o h, PointwiseY (qdmYearFn Fam tp em t c o h) (G o h)) ∧
+      (∀ o o' h h' x x' : List Rat, o.Perm o' → h.Perm h' → x.Perm x' → G o h x = G o' h' x') := by
+  obtain ⟨G, hpw, hG⟩ := qdm_pointwise_orderfree Fam hfit tp em t c
+  refine ⟨G, fun o h x _ => ?_, hG⟩
+  have := hpw o h x
+  simp only [qdmWindow] at this
+  simp [qdmYearFn, this]
+
+/-- the year loop alone (`running_window_mode = False`, year windows on): `equivariance_years` applies -/
+theorem cdft_years_only_time_order_equivariant (d : DeltaShift) (em : EcdfMethod) (im : IecdfMethod)
+    (obs H : List Rat) (YL YS hY : Int) (years : List Int) (fut : List Rat) (p : List Nat)
+    (hp : p.Perm (List.range fut.length)) (hlen : years.length = fut.length)
+    (hS : YS = 2 * hY + 1) (hh : 0 ≤ hY) (hSL : YS ≤ YL) :
+    ∃ out, cdftWindowYears d em im YL YS years obs H fut = .ok out ∧
+      cdftWindowYears d em im YL YS (take years p) obs H (take fut p) = .ok (take out p) := by
+  obtain ⟨G, hpw, hG⟩ := cdftYearFn_pointwise d em im
+  have hv := perm_valid p hp
+  have hvy : ∀ j ∈ p, j < years.length := fun j hj => hlen ▸ hv j hj
+  unfold cdftWindowYears
+  rw [if_neg (by simpa using hlen), if_neg (by rw [take_length years p hvy, take_length fut p hv]; simp)]
+  exact equivariance_years _ (G obs H) (hpw obs H) (fun x x' hx => hG _ _ _ _ _ _ (List.Perm.refl _) (List.Perm.refl _) hx)
+    YL YS hY years fut p hp hlen hS hh hSL
+
+theorem qdm_years_only_time_order_equivariant {P} (Fam : Family P) (hfit : FitPerm Fam) (tp : TrendPres)
+    (em : EcdfMethod) (t : Rat) (c : Option Rat)
+    (obs H : List Rat) (YL YS hY : Int) (years : List Int) (fut : List Rat) (p : List Nat)
+    (hp : p.Perm (List.range fut.length)) (hlen : years.length = fut.length)
+    (hS : YS = 2 * hY + 1) (hh : 0 ≤ hY) (hSL : YS ≤ YL) :
+    ∃ out, qdmWindowYears Fam tp em t c YL YS years obs H fut = .ok out ∧
+      qdmWindowYears Fam tp em t c YL YS (take years p) obs H (take fut p) = .ok (take out p) := by
+  obtain ⟨G, hpw, hG⟩ := qdmYearFn_pointwise Fam hfit tp em t c
+  have hv := perm_valid p hp
+  have hvy : ∀ j ∈ p, j < years.length := fun j hj => hlen ▸ hv j hj
+  unfold qdmWindowYears
+  rw [if_neg (by simpa using hlen), if_neg (by rw [take_length years p hvy, take_length fut p hv]; simp)]
+  exact equivariance_years _ (G obs H) (hpw obs H) (fun x x' hx => hG _ _ _ _ _ _ (List.Perm.refl _) (List.Perm.refl _) hx)
+    YL YS hY years fut p hp hlen hS hh hSL
+
+/-- **CDFt, seasonal and year windows together** (`SSR = False`): values are dated pairs (value, year); permuting the
+    three dated series permutes the result like `cm_future`, every step keeping its year -/
+theorem cdft_years_time_order_equivariant (d : DeltaShift) (em : EcdfMethod) (im : IecdfMethod)
+    (YL YS hY : Int) (hS : YS = 2 * hY + 1) (hh : 0 ≤ hY) (hSL : YS ≤ YL) :
+    TimeOrderEquivariantRW (yearsWinFn (cdftYearFn d em im) YL YS) anySeries := by
+  obtain ⟨G, hpw, hG⟩ := cdftYearFn_pointwise d em im
+  intro L S h dO dH dF obs hist fut pO pH pF hpO hpH hpF hlO hlH hlF hS' hh' hSL' hr _
+  exact equivariance_RW _ (yearCtx G YL YS) (yearsWinFn_pointwise _ G hpw YL YS hY hS hh hSL)
+    (fun o o' h h' x x' ho hh hx => yearCtx_orderFree G YL YS hG o o' h h' x x' ho hh hx)
+    L S h dO dH dF obs hist fut pO pH pF hpO hpH hpF hlO hlH hlF hS' hh' hSL' hr
+
+/-- **QDM, seasonal and year windows together** -/
+theorem qdm_years_time_order_equivariant {P} (Fam : Family P) (hfit : FitPerm Fam) (tp : TrendPres) (em : EcdfMethod)
+    (t : Rat) (c : Option Rat) (YL YS hY : Int) (hS : YS = 2 * hY + 1) (hh : 0 ≤ hY) (hSL : YS ≤ YL) :
+    TimeOrderEquivariantRW (yearsWinFn (qdmYearFn Fam tp em t c) YL YS) anySeries := by
+  obtain ⟨G, hpw, hG⟩ := qdmYearFn_pointwise Fam hfit tp em t c
+  intro L S h dO dH dF obs hist fut pO pH pF hpO hpH hpF hlO hlH hlF hS' hh' hSL' hr _
+  exact equivariance_RW _ (yearCtx G YL YS) (yearsWinFn_pointwise _ G hpw YL YS hY hS hh hSL)
+    (fun o o' h h' x x' ho hh hx => yearCtx_orderFree G YL YS hG o o' h h' x x' ho hh hx)
+    L S h dO dH dF obs hist fut pO pH pF hpO hpH hpF hlO hlH hlF hS' hh' hSL' hr
+
+/-- the composite window function is the model's `cdftWindowYears` on the window's dated future sample (every step
+    assigned; values re-attached to their years) -/
+theorem yearsWinFn_cdft_eq (d : DeltaShift) (em : EcdfMethod) (im : IecdfMethod) (YL YS : Int) (o h x : List Dated)
+    (io ih ix : List Nat) :
+    yearsWinFn (cdftYearFn d em im) YL YS o h x io ih ix =
+      match cdftWindowYears d em im YL YS (x.map Prod.snd) (o.map Prod.fst) (h.map Prod.fst) (x.map Prod.fst) with
+      | .error e => .error e
+      | .ok out => match allSome out with
+        | none => .error "unassigned"
+        | some vals => .ok (vals.zip (x.map Prod.snd)) := by
+  unfold yearsWinFn cdftWindowYears
+  rw [if_neg (by simp)]
+  rfl
+
+theorem yearsWinFn_qdm_eq {P} (Fam : Family P) (tp : TrendPres) (em : EcdfMethod) (t : Rat) (c : Option Rat)
+    (YL YS : Int) (o h x : List Dated) (io ih ix : List Nat) :
+    yearsWinFn (qdmYearFn Fam tp em t c) YL YS o h x io ih ix =
+      match qdmWindowYears Fam tp em t c YL YS (x.map Prod.snd) (o.map Prod.fst) (h.map Prod.fst) (x.map Prod.fst) with
+      | .error e => .error e
+      | .ok out => match allSome out with
+        | none => .error "unassigned"
+        | some vals => .ok (vals.zip (x.map Prod.snd)) := by
+  unfold yearsWinFn qdmWindowYears
+  rw [if_neg (by simp)]
+  rfl
+
+/-! ## 8. ScaledDistributionMapping (relative, precipitation) — rank based, tie-free `cm_future` -/
+
+/-- the sorted result (`cm_future` in sorted order after step 6) or the error: the order-free context -/
+def sdmRelCtx {P} (Fam : Family P) (thr t : Rat) (obs H F : List Rat) : Except String (List Rat) :=
+  let rO := rainy thr (sortQ obs)
+  let rH := rainy thr (sortQ H)
+  let fS := sortQ F
+  let rF := rainy thr fS
+  if rO.length = 0 ∨ rH.length = 0 ∨ rF.length = 0 then .error "ValueError"
+  else
+    let expected := sdmRelExpected rF.length rO.length obs.length rH.length H.length
+    let bc := sdmRelBcInitial Fam t rO rH rF
+    .ok (List.replicate (fS.length - expected) (0 : Rat) ++ bc.drop (bc.length - expected))
+
+theorem sdmRelative_eq_ctx {P} (Fam : Family P) (thr t : Rat) (obs H F : List Rat) :
+    sdmRelative Fam thr t obs H F = (sdmRelCtx Fam thr t obs H F).map (fun m => takeIdx m (rankOf F)) := by
+  unfold sdmRelative sdmRelCtx
+  rw [takeIdx_argsort]
+  simp only []
+  split_ifs <;> rfl
+
+theorem sdmRelCtx_perm {P} (Fam : Family P) (thr t : Rat) {obs obs' H H' F F' : List Rat}
+    (ho : obs.Perm obs') (hh : H.Perm H') (hx : F.Perm F') :
+    sdmRelCtx Fam thr t obs H F = sdmRelCtx Fam thr t obs' H' F' := by
+  unfold sdmRelCtx
+  rw [sortQ_congr ho, sortQ_congr hh, sortQ_congr hx, ho.length_eq, hh.length_eq]
+
+/-- **relative SDM on a tie-free `cm_future` is an element-wise map over an order-free (error-aware) context** -/
+theorem sdm_relative_pointwise_orderfree {P} (Fam : Family P) (thr t : Rat) (obs H F : List Rat) (hF : F.Nodup) :
+    sdmRelative Fam thr t obs H F =
+      (sdmRelCtx Fam thr t obs H F).map (fun m => F.map (fun a => m.getD (rankLt F a) 0)) := by
+  rw [sdmRelative_eq_ctx]
+  congr 1
+  funext m
+  exact takeIdx_rankOf_nodup m F hF
+
+/-- relative SDM is time-order equivariant on one window (`running_window_mode = False`, or one window of the loop);
+    errors are reproduced.  No family law is needed: every fit is taken on a sorted sample. -/
+theorem sdm_relative_time_order_equivariant {P} (Fam : Family P) (thr t : Rat) (obs H F : List Rat)
+    (pO pH pF : List Nat) (hF : F.Nodup)
+    (hpO : pO.Perm (List.range obs.length)) (hpH : pH.Perm (List.range H.length))
+    (hpF : pF.Perm (List.range F.length)) :
+    sdmRelative Fam thr t (take obs pO) (take H pH) (take F pF) =
+      (sdmRelative Fam thr t obs H F).map (fun out => take out pF) := by
+  have hFp := take_perm F pF hpF
+  rw [sdm_relative_pointwise_orderfree Fam thr t _ _ _ (take_perm_nodup F pF hpF hF),
+    sdm_relative_pointwise_orderfree Fam thr t obs H F hF,
+    sdmRelCtx_perm Fam thr t (take_perm obs pO hpO) (take_perm H pH hpH) hFp]
+  cases sdmRelCtx Fam thr t obs H F with
+  | error e => rfl
+  | ok m =>
+    simp only [Except.map]
+    congr 1
+    rw [Lemmas.Lift.take_map]
+    apply List.map_congr_left
+    intro a _
+    rw [rankLt_perm hFp]
+
+/-! ## 9. Window functions that may raise, in the running-window loop: relative SDM, ISIMIP `_apply_on_window`
+
+  `TimeOrderEquivariantRWE f ok`: under the guards of `TimeOrderEquivariantRW`, either both runs succeed and the result
+  is permuted like `cm_future`, or both runs raise the same error. -/
+
+def TimeOrderEquivariantRWE {α} (f : WinFn α) (ok : List α → Prop) : Prop :=
+  ∀ (L S h : Int) (dO dH dF : List Int) (obs hist fut : List α) (pO pH pF : List Nat),
+    pO.Perm (List.range obs.length) → pH.Perm (List.range hist.length) → pF.Perm (List.range fut.length) →
+    dO.length = obs.length → dH.length = hist.length → dF.length = fut.length →
+    S = 2 * h + 1 → 0 ≤ h → S ≤ L → (∀ d ∈ dF, 1 ≤ d ∧ d ≤ 366) → ok fut →
+    (∃ out, applyLocationRW f L S dO dH dF obs hist fut = .ok out ∧
+      applyLocationRW f L S (take dO pO) (take dH pH) (take dF pF) (take obs pO) (take hist pH) (take fut pF)
+        = .ok (take out pF)) ∨
+    (∃ e, applyLocationRW f L S dO dH dF obs hist fut = .error e ∧
+      applyLocationRW f L S (take dO pO) (take dH pH) (take dF pF) (take obs pO) (take hist pH) (take fut pF)
+        = .error e)
+
+theorem timeOrderEquivariantRWE_of_nodup {α C} (f f' : WinFn α)
+    (hff : ∀ o h x io ih ix, x.Nodup → f o h x io ih ix = f' o h x io ih ix)
+    (E : List α → List α → List α → Except String C) (G : C → List α → α → α)
+    (hf' : PointwiseOnE f' E G) (hE : OrderFreeE E G) : TimeOrderEquivariantRWE f List.Nodup := by
+  intro L S h dO dH dF obs hist fut pO pH pF hpO hpH hpF hlO hlH hlF hS hh hSL hr hnd
+  rw [applyLocationRW_congr_nodup f f' hff L S dO dH dF obs hist fut hnd,
+    applyLocationRW_congr_nodup f f' hff L S _ _ _ _ _ _ (take_perm_nodup fut pF hpF hnd)]
+  exact equivariance_RW_E f' E G hf' hE L S h dO dH dF obs hist fut pO pH pF hpO hpH hpF hlO hlH hlF hS hh hSL hr
+
+/-- the rank read-out shared by relative SDM and ISIMIP step 6 -/
+def rankRead (m : List Rat) (x : List Rat) (a : Rat) : Rat := m.getD (rankLt x a) 0
+
+theorem rankRead_perm (m : List Rat) {x x' : List Rat} (h : x.Perm x') : rankRead m x = rankRead m x' := by
+  funext a; unfold rankRead; rw [rankLt_perm h]
+
+/-- **relative SDM in the running-window loop**, tie-free `cm_future` -/
+theorem sdm_relative_rw_time_order_equivariant {P} (Fam : Family P) (thr t : Rat) :
+    TimeOrderEquivariantRWE (fun o h x _ _ _ => sdmRelative Fam thr t o h x) List.Nodup := by
+  apply timeOrderEquivariantRWE_of_nodup _
+    (fun o h x _ _ _ => (sdmRelCtx Fam thr t o h x).map (fun m => x.map (rankRead m x)))
+    (fun o h x _ _ _ hx => sdm_relative_pointwise_orderfree Fam thr t o h x hx)
+    (sdmRelCtx Fam thr t) rankRead (fun _ _ _ _ _ _ => rfl)
+  exact ⟨fun o o' h h' x x' ho hh hx => sdmRelCtx_perm Fam thr t ho hh hx, fun m x x' hx => rankRead_perm m hx⟩
+
+open Model.Isimip in
+/-- the order-free, error-aware context of `_apply_on_window` (no detrending, no randomisation): the transfer function
+    of step 5, then `mapped_vals` of step 6 -/
+def isimipCtx (c : Cfg) (fam : IsiFamily) (o : Oracles) (obs H F : List Rat) : Except String (List Rat) :=
+  (step5Ctx c o obs H F).bind (fun T => step6Ctx c fam o obs (obs.map T) H F)
+
+open Model.Isimip in
+theorem isimipCtx_perm (c : Cfg) (fam : IsiFamily) (o : Oracles) {obs obs' H H' F F' : List Rat}
+    (ho : obs.Perm obs') (hh : H.Perm H') (hx : F.Perm F') :
+    isimipCtx c fam o obs H F = isimipCtx c fam o obs' H' F' := by
+  unfold isimipCtx
+  rw [step5Ctx_perm c o ho hh hx]
+  cases step5Ctx c o obs' H' F' with
+  | error e => rfl
+  | ok T => exact step6Ctx_perm c fam o ho (ho.map T) hh hx
+
+open Model.Isimip in
+/-- `_apply_on_window` (steps 3–7) with `detrending = False` and no bound / threshold pair (steps 3, 4, 7 are the
+    identity; no random draws), tie-free `cm_future`: an element-wise map over `isimipCtx` -/
+theorem isimip_window_pointwise_orderfree_partial (c : Cfg) (fam : IsiFamily) (o : Oracles) (d : Draws)
+    (obs H F : List Rat) (yO yH yF : List Int) (hd : c.detrending = false)
+    (hl : (c.hasLowerBound && c.hasLowerThreshold) = false) (hu : (c.hasUpperBound && c.hasUpperThreshold) = false)
+    (hF : F.Nodup) :
+    applyOnWindow c fam o d obs H F yO yH yF = (isimipCtx c fam o obs H F).map (fun m => F.map (rankRead m F)) := by
+  rw [applyOnWindow_plain c fam o d obs H F yO yH yF hd hl hu, step5_eq]
+  unfold isimipCtx
+  cases step5Ctx c o obs H F with
+  | error e => rfl
+  | ok T =>
+    simp only [Except.map, Except.bind]
+    exact isimip_step6_pointwise_orderfree c fam o obs (obs.map T) H F hF
+
+open Model.Isimip in
+/-- **ISIMIP running-window loop** (`Model.Isimip.winFn` in `Skeleton.applyLocationRW`), partial: `detrending = False`,
+    no bound / threshold pair, the same oracle decisions for every window, tie-free `cm_future`.
+    FULL STATEMENT (not proved): the same for every configuration, with `α = Rat × Int` (value, year) —
+    missing: step 3 (`dailyTrend` is an element-wise map of (value, year) over the annual means and `np.unique(years)`,
+    both order-free — needs `uniqueYears_perm`, `yearlyMeans_perm`), step 4 (`randomizeMasked` = `sortLike` of the sorted
+    draws: rank based, equivariant under the same draws for tie-free masked values), and oracles (`linregress` p-value,
+    KS decision) as functions of the window samples up to order instead of the window's index list. -/
+theorem isimip_rw_time_order_equivariant_partial (c : Cfg) (fam : IsiFamily) (o : Oracles) (drw : List Nat → Draws)
+    (yearsO yearsH yearsF : List Int) (hd : c.detrending = false)
+    (hl : (c.hasLowerBound && c.hasLowerThreshold) = false) (hu : (c.hasUpperBound && c.hasUpperThreshold) = false) :
+    TimeOrderEquivariantRWE (winFn c fam (fun _ => o) drw yearsO yearsH yearsF) List.Nodup := by
+  apply timeOrderEquivariantRWE_of_nodup _
+    (fun ob h x _ _ _ => (isimipCtx c fam o ob h x).map (fun m => x.map (rankRead m x)))
+    (fun ob h x io ih ix hx => isimip_window_pointwise_orderfree_partial c fam o (drw ix) ob h x _ _ _ hd hl hu hx)
+    (isimipCtx c fam o) rankRead (fun _ _ _ _ _ _ => rfl)
+  exact ⟨fun ob ob' h h' x x' ho hh hx => isimipCtx_perm c fam o ho hh hx, fun m x x' hx => rankRead_perm m hx⟩
+
+/-! ## 10. The hypotheses are satisfiable (non-vacuity) -/
+
+/-- the family law holds for the executable rational test double -/
+theorem ratSigmoid_locScalePerm : LocScalePerm ratSigmoid := locScalePerm_of_laws Lemmas.Family.ratSigmoid_laws
+
+example : FitPerm ratSigmoid.toFamily := ratSigmoid_fitPerm
+
+/-- a concrete instance of every guard of `TimeOrderEquivariantRW`: window length 3, step 1, series of different
+    lengths not starting on day 1 and crossing the year boundary, three different non-trivial permutations -/
+example : ∃ out, applyLocationRW (okFn (linearScaling .additive)) 3 1 [365, 366, 1, 2] [1, 2, 365] [366, 1, 2, 365, 366]
+      [10, 11, 12, 13] [20, 21, 22] [1, 2, 3, 4, 5] = .ok out ∧
+    applyLocationRW (okFn (linearScaling .additive)) 3 1 (take [365, 366, 1, 2] [3, 1, 0, 2]) (take [1, 2, 365] [2, 0, 1])
+      (take [366, 1, 2, 365, 366] [4, 2, 0, 1, 3]) (take [10, 11, 12, 13] [3, 1, 0, 2]) (take [20, 21, 22] [2, 0, 1])
+      (take [1, 2, 3, 4, 5] [4, 2, 0, 1, 3]) = .ok (take out [4, 2, 0, 1, 3]) :=
+  ls_time_order_equivariant .additive 3 1 0 [365, 366, 1, 2] [1, 2, 365] [366, 1, 2, 365, 366] [10, 11, 12, 13] [20, 21, 22]
+    [1, 2, 3, 4, 5] [3, 1, 0, 2] [2, 0, 1] [4, 2, 0, 1, 3] (by decide) (by decide) (by decide) rfl rfl rfl (by decide) (by decide)
+    (by decide) (by decide) trivial
+
+/-- … of `TimeOrderEquivariantDC` -/
+example : ∃ out, applyLocationDC (okFn (deltaChange .additive)) 3 1 [365, 366, 1, 2] [1, 2, 365] [366, 1, 2, 365, 366]
+      [10, 11, 12, 13] [20, 21, 22] [1, 2, 3, 4, 5] = .ok out ∧
+    applyLocationDC (okFn (deltaChange .additive)) 3 1 (take [365, 366, 1, 2] [3, 1, 0, 2]) (take [1, 2, 365] [2, 0, 1])
+      (take [366, 1, 2, 365, 366] [4, 2, 0, 1, 3]) (take [10, 11, 12, 13] [3, 1, 0, 2]) (take [20, 21, 22] [2, 0, 1])
+      (take [1, 2, 3, 4, 5] [4, 2, 0, 1, 3]) = .ok (take out [3, 1, 0, 2]) :=
+  dc_time_order_equivariant .additive 3 1 0 [365, 366, 1, 2] [1, 2, 365] [366, 1, 2, 365, 366] [10, 11, 12, 13] [20, 21, 22]
+    [1, 2, 3, 4, 5] [3, 1, 0, 2] [2, 0, 1] [4, 2, 0, 1, 3] (by decide) (by decide) (by decide) rfl rfl rfl (by decide) (by decide)
+    (by decide) (by decide)
+
+/-- the tie-free guard of the rank-based methods (absolute SDM with the test double) -/
+example : ∃ out, applyLocationRW (okFn (sdmAbsolute ratSigmoid)) 3 1 [365, 366, 1, 2] [1, 2, 365] [366, 1, 2, 365, 366]
+      [10, 11, 12, 13] [20, 21, 22] [5, 2, 3, 1, 4] = .ok out ∧
+    applyLocationRW (okFn (sdmAbsolute ratSigmoid)) 3 1 (take [365, 366, 1, 2] [3, 1, 0, 2]) (take [1, 2, 365] [2, 0, 1])
+      (take [366, 1, 2, 365, 366] [4, 2, 0, 1, 3]) (take [10, 11, 12, 13] [3, 1, 0, 2]) (take [20, 21, 22] [2, 0, 1])
+      (take [5, 2, 3, 1, 4] [4, 2, 0, 1, 3]) = .ok (take out [4, 2, 0, 1, 3]) :=
+  sdm_absolute_time_order_equivariant ratSigmoid ratSigmoid_locScalePerm 3 1 0 [365, 366, 1, 2] [1, 2, 365]
+    [366, 1, 2, 365, 366] [10, 11, 12, 13] [20, 21, 22] [5, 2, 3, 1, 4] [3, 1, 0, 2] [2, 0, 1] [4, 2, 0, 1, 3]
+    (by decide) (by decide) (by decide) rfl rfl rfl (by decide) (by decide) (by decide) (by decide) (by decide +kernel)
+
+/-- the year-window guards (`YS = 2·1 + 1 ≤ YL = 5`) together with the seasonal ones: dated pairs (value, year) -/
+example : ∃ out, applyLocationRW (yearsWinFn (cdftYearFn .additive .linear .linear) 5 3) 3 1 [365, 366, 1, 2] [1, 2, 365]
+      [366, 1, 2, 365, 366] [(10, 1990), (11, 1990), (12, 1991), (13, 1991)] [(20, 1985), (21, 1985), (22, 1985)]
+      [(1, 2000), (2, 2001), (3, 2001), (4, 2005), (5, 2008)] = .ok out ∧
+    applyLocationRW (yearsWinFn (cdftYearFn .additive .linear .linear) 5 3) 3 1 (take [365, 366, 1, 2] [3, 1, 0, 2])
+      (take [1, 2, 365] [2, 0, 1]) (take [366, 1, 2, 365, 366] [4, 2, 0, 1, 3])
+      (take [(10, 1990), (11, 1990), (12, 1991), (13, 1991)] [3, 1, 0, 2]) (take [(20, 1985), (21, 1985), (22, 1985)] [2, 0, 1])
+      (take [(1, 2000), (2, 2001), (3, 2001), (4, 2005), (5, 2008)] [4, 2, 0, 1, 3]) = .ok (take out [4, 2, 0, 1, 3]) :=
+  cdft_years_time_order_equivariant .additive .linear .linear 5 3 1 (by decide) (by decide) (by decide) 3 1 0
+    [365, 366, 1, 2] [1, 2, 365] [366, 1, 2, 365, 366] _ _ _ [3, 1, 0, 2] [2, 0, 1] [4, 2, 0, 1, 3]
+    (by decide) (by decide) (by decide) rfl rfl rfl (by decide) (by decide) (by decide) (by decide) trivial
+
+open Model.Isimip in
+/-- the configuration guards of the ISIMIP partial theorem: tas-like settings without detrending -/
+example : let c : Cfg := { trendMethod := .additive, nonparametricQm := false, detrending := false }
+    c.detrending = false ∧ (c.hasLowerBound && c.hasLowerThreshold) = false ∧
+      (c.hasUpperBound && c.hasUpperThreshold) = false := by decide
 
 end Props.C06
